@@ -143,9 +143,27 @@ pub fn build_command(root: &Path, cfg: &Config) -> MosResult<()> {
     bw.write_banks(banks, &target_dir, &filename)?;
 
     if let Some(listings) = listings {
+        // A listing is named after its source file. When two source files share a name (lib/main.asm next to main.asm)
+        // that is not enough to tell them apart: then the directories (relative to the project) become part of the name
+        let stem = |p: &Path| p.file_stem().unwrap().to_string_lossy().to_string();
+        let stems = listings.keys().map(|p| stem(p)).collect::<Vec<_>>();
         for (source_path, contents) in listings {
-            let listing_path =
-                format!("{}.lst", source_path.file_stem().unwrap().to_string_lossy());
+            let unique = stems.iter().filter(|s| **s == stem(&source_path)).count() == 1;
+            let listing_path = if unique {
+                format!("{}.lst", stem(&source_path))
+            } else {
+                let relative = source_path.strip_prefix(root).unwrap_or(&source_path);
+                let name = relative
+                    .with_extension("")
+                    .components()
+                    .filter_map(|c| match c {
+                        std::path::Component::Normal(part) => Some(part.to_string_lossy().to_string()),
+                        _ => None,
+                    })
+                    .collect::<Vec<_>>()
+                    .join("_");
+                format!("{}.lst", name)
+            };
             let mut out = fs::File::create(target_dir.join(listing_path)).map_err(map_io_error)?;
             out.write_all(contents.as_bytes()).map_err(map_io_error)?;
         }
